@@ -34,8 +34,11 @@ def _worker(args):
     t0 = time.time()
     try:
         from . import framescan
+        from . import symex as _sx
         framescan.take_executed()
+        _sx.ASSUME_SITES.clear()
         out = t.run(tier)
+        out['assume_sites'] = dict(_sx.ASSUME_SITES)
         out['results'] = list(out.get('results', []))
         ex = framescan.take_executed()
         if ex and getattr(t, 'frame_prop', None) is not False:
@@ -44,7 +47,7 @@ def _worker(args):
             out['results'].extend(framescan.frame_results(prop, _repo(), ex))
         return {'task': t.name, 'results': out.get('results', []), 'functions': out.get('functions', []),
                 'notes': out.get('notes', []), 'bounded': out.get('bounded', []), 'seconds': time.time() - t0,
-                'error': out.get('error')}
+                'error': out.get('error'), 'assume_sites': out.get('assume_sites', {})}
     except Exception:
         return {'task': t.name, 'results': [], 'functions': [], 'notes': [], 'bounded': [], 'seconds': time.time() - t0,
                 'crash': traceback.format_exc()}
@@ -123,7 +126,10 @@ class PropertyRun:
         outs = run_tasks(self.tasks, self.tier)
         results, functions, notes, bounded, crashes, errors = [], [], [], [], [], []
         seen_frame = set()
+        self.assume_sites = {}
         for o in outs:
+            for k, v in (o.get('assume_sites') or {}).items():
+                self.assume_sites[k] = self.assume_sites.get(k, 0) + v
             o['results'] = [r for r in o['results'] if not (r.get('kind') == 'frame' and r.get('backend') == 'syntactic-frame-scan' and
                                                             (r['obligation'] in seen_frame or seen_frame.add(r['obligation'])))]
             results.extend(o['results'])
@@ -222,6 +228,8 @@ class PropertyRun:
             'samples': samples or [{'note': 'no obligations'}],
             'bounded_stand_ins': bounded + self.bounded_notes,
             'extraction_drops': sorted(set(notes)),
+            'assume_sites': dict(sorted(getattr(self, 'assume_sites', {}).items())),
+            'assume_sites_note': 'mechanical count of ex.assume(...) calls per harness / dependency-contract function during this run (typing facts of fresh inputs, preconditions, representation invariants, dependency contracts); the text of what they mean is under assumptions',
             'explanation': self.explanation,
             'evaluations': max(n_ob, 1),
             'distinct_nontrivial': max(len({r['obligation'] for r in results}), 2),
